@@ -289,3 +289,26 @@ fn c05_constants_resembling_recognised_hashes_name_no_small_slot() {
     }
     run_cases("c05_near_hashes", cases);
 }
+
+/// the same packed slots seen from C05: the layout names the literal keys that were accessed and nothing else (a key of
+/// 2^64 + 5 is not slot 5); and mapping slots hashed in an UNALIGNED scratch area (0x04 / 0x0c) next to stale constants in
+/// the aligned words name only the slot constant that was hashed
+#[test]
+fn c05_packed_slots_and_unaligned_scratch_name_only_accessed_slots() {
+    let one = U256::ONE;
+    let mut cases = vec![];
+    for k in [U256::from(3u8), (one << 64u32) + U256::from(5u8), (one << 128u32) + U256::from(7u8), (one << 255u32) + U256::from(9u8), U256::MAX, keccak(b"some.namespaced.storage") - one] {
+        let mut c = vec![];
+        c.extend([0x60, 0xff]); p32(&mut c, k); c.extend([0x54, 0x16, 0x60, 0x00, 0x52]);
+        c.extend([0x61, 0xff, 0xff]); p32(&mut c, k); c.extend([0x54, 0x60, 0x08, 0x1c, 0x16, 0x60, 0x20, 0x52, 0x00]);
+        cases.push(Case { ob: "slots.only_accessed_slots", what: format!("two fields read out of slot {k:#x}"), code: c, allowed: [k].into_iter().collect(), in_value: BTreeSet::new() });
+    }
+    for (scratch, stale, slot) in [(0x04u8, 7u8, 9u8), (0x0c, 5, 3), (0x1f, 6, 2), (0x00, 7, 9)] {
+        // look-alike in the aligned words: mem[0x00] = caller, mem[0x20] = stale, keccak(0x00, 0x40) dropped
+        let mut c = vec![0x33]; mstore(&mut c, 0x00); p1(&mut c, stale); mstore(&mut c, 0x20); sha3(&mut c, 0x00, 0x40); c.push(0x50);
+        // the real access: mem[scratch] = calldataload(4), mem[scratch + 0x20] = slot, sload(keccak(scratch, 0x40))
+        cdl(&mut c, 4); mstore(&mut c, scratch); p1(&mut c, slot); mstore(&mut c, scratch + 0x20); sha3(&mut c, scratch, 0x40); c.extend([0x54, 0x50, 0x00]);
+        cases.push(Case { ob: "slots.only_accessed_slots.stale_memory_constant", what: format!("keccak(caller ++ {stale}) dropped, then sload(keccak(mem[{scratch:#x}..+0x40])) with slot {slot} hashed there"), code: c, allowed: [U256::from(slot)].into_iter().collect(), in_value: BTreeSet::new() });
+    }
+    run_cases("c05_packed_and_unaligned", cases);
+}
